@@ -311,7 +311,7 @@ pub fn execute(s: &FixScn) -> FixRun {
             b.as_ref().unwrap().clone()
         }
     };
-    let r = crate::engine::guarded(|| {
+    let r = crate::engine::guarded_fixture(|| {
         if s.lo {
             let script = s.scripts.first().cloned().unwrap_or_default();
             let mk = mk_shared.clone();
@@ -341,7 +341,8 @@ pub fn execute(s: &FixScn) -> FixRun {
     turmoil_net::verif::set_loopback_tap(None);
     let logv = log.borrow().clone();
     if let Err(msg) = r {
-        an.complaint = Some(("kernel-panic".into(), format!("panic inside turmoil-net: {msg}")));
+        let what = msg.split(" @ ").next().unwrap_or("?").to_string();
+        an.complaint = Some((format!("fixture-panic:{what}"), format!("panic while the fixture was running: {msg}")));
         return FixRun { log: logv, analysis: an };
     }
     let Some(sh) = shared.borrow().clone() else {
@@ -500,7 +501,15 @@ fn timing(log: &[Ev], evals: &[Evaluation], local_tags: &BTreeSet<u64>, tapped: 
                             Verdict::Deliver(d) => d,
                             _ => Duration::ZERO,
                         };
-                        let deadline = t_eval + d;
+                        let Some(deadline) = t_eval.checked_add(d) else {
+                            // no representable deadline: held for ever
+                            count(an, "delay_forever_checked", 1);
+                            if !rx.is_empty() {
+                                an.complaint = Some(("delivered-before-deadline".into(), format!("datagram {} got {v:?} (held for ever) but was received at {:?}", e.tag.desc, rx[0].2)));
+                                return;
+                            }
+                            continue;
+                        };
                         if rx.is_empty() {
                             if deadline + 3 * TICK < end {
                                 an.complaint = Some(("delivery-missing".into(), format!("datagram {} got {v:?} at {t_eval:?} but was never received (log ends {end:?})", e.tag.desc)));
